@@ -344,8 +344,10 @@ inline Scenario decode(Chooser& c, const Profile& pf, vf::Stats& st, bool record
     }
     const std::vector<std::string> layer_keys = s.init_keys;
     // optional siblings in the upper layer (so that the root border of layer 0 holds several entries)
-    if (depth > 0 && c.chance(1, 3)) {
+    bool upper_full = false; // the border of the upper layer that holds the link is full (14 siblings + the link)
+    if (depth > 0 && c.chance(pair ? 2 : 1, 3)) {
         unsigned sib = c.flip() ? 14 : 1 + c.range(0, 5);
+        upper_full = sib == 14 && depth == 1;
         for (unsigned i = 0; i < sib; ++i) { s.init_keys.push_back(std::string(1, static_cast<char>('A' + i))); }
         s.family += "+upper_siblings";
     }
@@ -395,6 +397,7 @@ inline Scenario decode(Chooser& c, const Profile& pf, vf::Stats& st, bool record
     unsigned nt = pf.min_threads + c.range(0, pf.max_threads - pf.min_threads);
     s.threads.resize(nt);
     std::set<std::string> fresh_used;
+    bool force_r2l = false; // template scenarios that aim at the right end of the layer ask for a right-to-left range read
     auto gen_range_op = [&](Op& o, bool cursor) {
         o.kind = cursor ? OpK::Cursor : OpK::Scan;
         // endpoints: full range, or around hot / stored keys
@@ -424,11 +427,11 @@ inline Scenario decode(Chooser& c, const Profile& pf, vf::Stats& st, bool record
         }
         o.nvv = pf.prop == "C06" || pf.prop == "C10" || c.chance(1, 3);
         if (cursor) {
-            o.r2l = c.chance(1, 3);
+            o.r2l = force_r2l || c.chance(1, 3);
             o.early_abort = c.chance(1, 4);
             o.stop_after = c.chance(1, 4) ? 1 + c.range(0, 5) : 0;
         } else {
-            switch (c.weighted({5, 2, 1, 1, 2})) {
+            switch (force_r2l ? 4U : static_cast<unsigned>(c.weighted({5, 2, 1, 1, 2}))) {
                 case 0: o.max = 0; break;
                 case 1: o.max = 1; break;
                 case 2: o.max = 2; break;
@@ -486,6 +489,11 @@ inline Scenario decode(Chooser& c, const Profile& pf, vf::Stats& st, bool record
         templated = true;
         unsigned r = n == 0 ? 0 : c.range(0, n - 1);
         if (n != 0 && c.chance(1, 3)) { r = c.flip() ? 0 : n - 1; }
+        if (v2 && n != 0 && pf.scanner_thread && c.chance(1, 5)) {
+            // a right-to-left read starts at the right end of the layer: race it against a writer on the last key / last border
+            force_r2l = true;
+            r = n - 1;
+        }
         if (dense) {
             // K in the full border or next to it; K2 = an absent key of K's border (its put splits the full border)
             int rr = static_cast<int>(8 * dense_b) - 2 + static_cast<int>(c.range(0, 11));
@@ -513,6 +521,7 @@ inline Scenario decode(Chooser& c, const Profile& pf, vf::Stats& st, bool record
         if (pf.scanner_thread || (pf.w_scan + pf.w_cursor > 0 && c.chance(1, 3))) {
             Op o;
             gen_range_op(o, pf.w_cursor > pf.w_scan ? true : (pf.w_cursor == 0 ? false : c.flip()));
+            force_r2l = false;
             s.threads[0].push_back(o);
         } else {
             switch (c.weighted({pf.w_get * 3, pf.w_put, pf.w_put_unique, pair ? pf.w_remove * 6 : pf.w_remove})) {
@@ -524,7 +533,11 @@ inline Scenario decode(Chooser& c, const Profile& pf, vf::Stats& st, bool record
             if (c.chance(1, 3)) { s.threads[0].push_back(point(OpK::Get, c.flip() ? K : K2)); }
         }
         // thread 1
-        switch (dense && c.flip() ? 2U : (v2 ? c.range(0, 12) : c.range(0, 9))) {
+        switch (dense && c.flip() ? 2U : (v2 && upper_full && c.flip() ? 13U : (v2 ? c.range(0, 12) : c.range(0, 9)))) {
+            case 13: // a put into the FULL border of the upper layer (it splits and re-parents the layer below) against thread 0's
+                     // operation inside that layer (a remove that collapses the layer's interior root promotes a new layer root)
+                s.threads[1].push_back(point(OpK::Put, c.flip() ? s.prefix.substr(0, 8) : std::string(1, 'a') + std::string(1, static_cast<char>('0' + c.range(0, 9)))));
+                break;
             case 10: // a writer in the neighbouring border while K's border is emptied / unlinked / the interior above collapses
                 s.threads[1].push_back(point(c.flip() ? OpK::Put : OpK::Remove, n == 0 ? K2 : present_at(r + 1)));
                 break;
